@@ -21,7 +21,7 @@ RULE = ("generated fragment-F domains with unconditional, conditional (when) and
         "discrete and numeric effects x states x type-correct calls, restricted to calls the reference finds "
         "applicable and whose simultaneously firing effects are consistent (others counted as skipped); every case is "
         "applied under the natural order and under drawn permutations of the lifted and grounded effect collections "
-        "and of the object table.  Non-trivial = the action has a conditional or quantified effect whose condition is "
+        "and of the object table (every other permuted run passes allow_inapplicable_actions=True, which must not matter for an applicable action).  Non-trivial = the action has a conditional or quantified effect whose condition is "
         "false for one instantiation and true for another (over the probes of the case), or a numeric effect reading "
         "a fluent that another effect of the same action writes.  Distinct by (action, call, state).")
 ASSUMPTIONS = ["object table = problem objects plus domain constants",
@@ -32,7 +32,7 @@ ASSUMPTIONS = ["object table = problem objects plus domain constants",
 N_SCHEDULES = 3
 
 
-def lib_apply(domain, action_name, args, objs, state, ints=None, k=None):
+def lib_apply(domain, action_name, args, objs, state, ints=None, k=None, allow=False):
     from pddl_plus_parser.models import Operator
 
     def run():
@@ -45,7 +45,7 @@ def lib_apply(domain, action_name, args, objs, state, ints=None, k=None):
         if k is not None:
             op.ground()
             sched.permute_operator(op, ints, k)
-        return read_lib_state(op.apply(state))
+        return read_lib_state(op.apply(state, allow_inapplicable_actions=True) if allow else op.apply(state))
     return lib_call(run)
 
 
@@ -141,8 +141,10 @@ def check_case(case):
                     return res
                 state = ps[1]
             else:
-                state = build_state(domain, world, st)
-            ok2, got = lib_apply(domain, a["name"], pr["args"], objs, state, ints, k)
+                # odd probes: facts also stored under their arguments' own (sub)types, as earlier add effects leave them
+                state = build_state(domain, world, st, variants=(i % 2 == 1))
+            # the action is applicable: allow_inapplicable_actions must make no difference (every other schedule)
+            ok2, got = lib_apply(domain, a["name"], pr["args"], objs, state, ints, k, allow=(k is not None and k % 2 == 1))
             tag = "C03/successor" if k is None else "C03/successor-permuted"
             if not ok2 and model == "any":
                 res.known.append(S.F_NESTED)
@@ -170,7 +172,7 @@ def check_case(case):
 
 
 def gen(ch, tier):
-    ft = G.feats(max_leaves=2, forall_pre=False, nested=ch.flag(0.3), max_actions=1, p_when=0.7, p_forall_eff=0.5)
+    ft = G.feats(max_leaves=2, forall_pre=False, nested=ch.flag(0.3), max_actions=1, p_when=0.7, p_forall_eff=0.5, p_long_number=0.1, long_decimals=6, p_big_values=0.1)
     return S.gen_sem_case(ch, tier, ft, n_probes=8, force=0.85, same_action=True)
 
 
